@@ -355,6 +355,14 @@ class Ctx:
                          'NO-REACH violated: from %s, %s reachable in `%s`' % (roots, w, f.path), f, line)
         return seen
 
+    def no_direct(self, f, patterns, what=None):
+        if f is None:
+            return
+        bad = f.family_calls_to(patterns)
+        self._ob(not bad, self.sample('no-direct', f, f.line, what or ('no direct call of %s' % (patterns,))))
+        if bad:
+            self.violate('direct|%s|%s' % (f.path, '+'.join(patterns)), 'forbidden direct call of %s: %s' % (bad[0].callee, what or ''), f, bad[0].line)
+
     # ------------------------------------------------------------------ flow
     def flows(self, f, point, argidx, from_call=None, from_arg=None, what=None):
         """ARG-FLOW: argument argidx of the call at point derives from a call of `from_call` /
